@@ -33,6 +33,7 @@ RULE = (
     ' Round 8: `stream` path (the line as bytes through a real StreamReader); MQTT path preceded by another message on the same topic.'
     ' Round 9: BOM/zero-width/NUL prefixes and canonically decomposable characters on every path.'
     ' Round 10: every odd spelling of a field is enumerated with every command (not sampled).'
+    ' Round 11: one ill-formed line of every class arriving complete on a byte stream must be rejected as InvalidMessageError.'
 )
 ASSUMPTIONS = [
     "spelling classes: canonical -?(0|[1-9][0-9]*); anything else int() parses is a grey zone (verdict not demanded)",
